@@ -729,16 +729,21 @@ theorem replayLoop_seg (log : List (Option (Item α))) (sid ex : Nat) :
     · exact ⟨_, he1, by simp, by simp, by simpa using hseg1, (fun hf => by cases hf), hother⟩
 
 theorem getOpen_new (c : Conn α) (sid frm : Nat) (budget : Option Nat) :
-    ∃ e, (getOpen c sid frm budget).exs[c.exs.length]? = some e ∧ e.stream = sid ∧ e.from = frm ∧ NoEv e.all := by
+    ∃ e, (getOpen c sid frm budget).exs[c.exs.length]? = some e ∧ e.stream = sid ∧ e.from = frm ∧ NoEv e.all ∧
+      ∀ o ∈ e.all, o.items = [] := by
   unfold getOpen
   split
   · simp only [emit]
-    refine ⟨_, (emitX_eq _ _ _ _ List.getElem?_concat_length).1, by simp, by simp, ?_⟩
-    rw [push_all _ _ (fun hl => absurd rfl hl)]
-    intro o ho
-    simp [Exch.all] at ho
-    subst ho; rfl
-  · exact ⟨_, List.getElem?_concat_length, rfl, rfl, by intro o ho; simp [Exch.all] at ho⟩
+    refine ⟨_, (emitX_eq _ _ _ _ List.getElem?_concat_length).1, by simp, by simp, ?_, ?_⟩
+    · rw [push_all _ _ (fun hl => absurd rfl hl)]
+      intro o ho
+      simp [Exch.all] at ho
+      subst ho; rfl
+    · rw [push_all _ _ (fun hl => absurd rfl hl)]
+      intro o ho
+      simp [Exch.all] at ho
+      subst ho; rfl
+  · exact ⟨_, List.getElem?_concat_length, rfl, rfl, by intro o ho; simp [Exch.all] at ho, by intro o ho; simp [Exch.all] at ho⟩
 
 theorem inv08_getGo {c : Conn α} (hw : Inv c) (h : Inv08 c) (sid frm : Nat) (ver : Ver) (budget : Option Nat)
     (log : List (Option (Item α))) (hlog : c.store sid = some log) (hfrom : frm ≤ log.length)
@@ -746,7 +751,7 @@ theorem inv08_getGo {c : Conn α} (hw : Inv c) (h : Inv08 c) (sid frm : Nat) (ve
     (hnatt : (findStream sid c.streams).bind (·.attached) = none) :
     Inv08 (getGo c sid frm ver budget (toReplay log frm)) := by
   obtain ⟨gs, gst, gn, _, _, _, _, glen, gold, _⟩ := getOpen_frame c sid frm budget
-  obtain ⟨e0, ge0, ges, gef, gno⟩ := getOpen_new c sid frm budget
+  obtain ⟨e0, ge0, ges, gef, gno, _⟩ := getOpen_new c sid frm budget
   have hw2 := getOpen_inv hw sid frm budget
   obtain ⟨fs, fst, fn, _, _, _, _, fr⟩ := replayLoop_frame (getOpen c sid frm budget) c.exs.length sid frm (toReplay log frm)
   obtain ⟨e', he', hes', hef', hseg', hcnt', hoth'⟩ := replayLoop_seg log sid c.exs.length (toReplay log frm)
